@@ -273,10 +273,12 @@ func (database *ChainDatabase) blockCommit(hash common.Hash) error {
 	}
 
 	commitContext := func(block *types.Block, candidates []*Candidate) error {
+		verifCrashPoint("stable.ptr.pre")
 		err = leveldb.SetCurrentBlock(database.LevelDB, cItem.Block.Hash())
 		if err != nil {
 			return err
 		}
+		verifCrashPoint("stable.ptr.set")
 
 		if len(candidates) <= 0 {
 			return nil
